@@ -12,7 +12,10 @@ fuzz_target!(|data: &[u8]| {
         if let Ok(h) = BlobHash::from_relative_path(Path::new(s)) {
             let canon = h.relative_path();
             let canon = canon.to_str().unwrap();
-            assert!(s.ends_with(canon), "accepted path {s:?} is not the canonical path {canon:?} of its hash");
+            // compare path components, not characters: "a/b/c/" and "a//b/c" are the same path
+            let comps: Vec<String> = Path::new(s).components().map(|c| c.as_os_str().to_string_lossy().to_string()).collect();
+            let last3 = comps[comps.len().saturating_sub(3)..].join("/");
+            assert!(last3 == canon, "accepted path {s:?} is not the canonical path {canon:?} of its hash");
             assert_eq!(BlobHash::from_relative_path(Path::new(canon)).unwrap(), h);
         }
     }
